@@ -6,11 +6,13 @@ CONSTANTS
   DevSingleSendCall = FALSE
   DevNoHsTimer = FALSE
   DevReadOnceAfterHandshake = FALSE
+  DevPlainTimeoutReply = FALSE
 INVARIANT PrefixAlways
 INVARIANT CompleteAtClose
 INVARIANT ClosedAfterCloseNotify
 INVARIANT InnerOnlyAfterHandshake
 INVARIANT NoPlainBeforeTls
+INVARIANT OnlyTlsOnWire
 INVARIANT PlainInOrder
 INVARIANT PlainComplete
 INVARIANT HsTimerWhileHandshaking
